@@ -166,3 +166,54 @@ func alignViewCalls(open float64) []viewCall {
 }
 
 var _ *rand.Rand
+
+// "casemasks" units: soft-masked sequences — upper case with ONE lower-case base
+// at every position in turn, with a lower-case head or tail of 1..4 bases, a
+// lower-case run in the middle, and the mirror images (lower case with upper
+// case islands). Repeat maskers write exactly this; uniformly random case never
+// produces "all upper but the last two". A routine that looks at the case of a
+// block, or of a part of the input, to choose a path decides for the rest too.
+func caseMasks(s []byte, fn func(v []byte, what string)) {
+	up, lo := bytes.ToUpper(s), bytes.ToLower(s)
+	mk := func(base, other []byte, from, to int) []byte {
+		v := append([]byte{}, base...)
+		copy(v[from:to], other[from:to])
+		return v
+	}
+	n := len(s)
+	for _, pair := range [][2][]byte{{up, lo}, {lo, up}} {
+		fn(append([]byte{}, pair[0]...), "one case throughout")
+		for p := 0; p < n; p++ {
+			fn(mk(pair[0], pair[1], p, p+1), fmt.Sprintf("the other case at position %d only", p))
+		}
+		for w := 1; w <= 4 && w <= n; w++ {
+			fn(mk(pair[0], pair[1], n-w, n), fmt.Sprintf("the other case in the last %d", w))
+			fn(mk(pair[0], pair[1], 0, w), fmt.Sprintf("the other case in the first %d", w))
+		}
+		if n >= 6 {
+			fn(mk(pair[0], pair[1], n/3, 2*n/3), "the other case in the middle third")
+		}
+	}
+}
+
+func caseMaskUnit(alpha string, maxLenQ, maxLenT int, check func(k *K, v []byte)) func(c *Ctx) {
+	return func(c *Ctx) {
+		for l := 1; l <= c.N(maxLenQ, maxLenT); l++ {
+			c.Case(int64(l), func(k *K) {
+				r := k.Rand()
+				s := randSeq(r, []byte(alpha), l)
+				caseMasks(s, func(v []byte, what string) {
+					if k.Failed() {
+						return
+					}
+					k.Input("seq", v)
+					k.Input("case_pattern", what)
+					check(k, v)
+					k.Count("case_masked_sequences", 1)
+					k.Evals(1)
+				})
+				k.Nontrivial([]byte(fmt.Sprint("casemask", l)), s)
+			})
+		}
+	}
+}
